@@ -1189,6 +1189,11 @@ func (b *BaseStore) pubSubChanListener(topic iface.PubSubTopic) error {
 				continue
 			}
 
+			if msg.Address != b.id {
+				b.logger.Debug(fmt.Sprintf("Ignoring heads of %s received on the topic of %s", msg.Address, b.address))
+				continue
+			}
+
 			if len(msg.Heads) == 0 {
 				b.logger.Debug(fmt.Sprintf("Nothing to synchronize for %s:", b.address))
 				continue
